@@ -261,6 +261,26 @@ func (u *Universe) rewrite(r *rng, ti *TypeInfo, entry *Field, recs []*wrec, st 
 		}
 		recs = out
 	}
+	// 2b. last one wins: an EARLIER occurrence of a singular scalar field (of a map entry's key or value) with another value of
+	// the same wire type changes nothing
+	if r.intn(3) == 0 {
+		var out []*wrec
+		for _, x := range recs {
+			scalar := x.typ == protowire.VarintType || x.typ == protowire.Fixed32Type || x.typ == protowire.Fixed64Type || (x.typ == protowire.BytesType && !x.hasKid)
+			known := (ti != nil && x.f != nil && x.f.Label != LRepeated && !x.f.IsMap && x.f.Custom == CNone && x.f.Kind != KMsg) ||
+				(ti == nil && entry != nil && (x.num == 1 || x.num == 2))
+			if scalar && known && r.intn(2) == 0 {
+				d := &wrec{num: x.num, typ: x.typ, f: x.f, u64: x.u64 ^ uint64(1+r.intn(200))}
+				if x.typ == protowire.BytesType {
+					d.bytes = append([]byte("dup"), byte('a'+r.intn(26)))
+				}
+				out = append(out, d)
+				st["duplicate-earlier"]++
+			}
+			out = append(out, x)
+		}
+		recs = out
+	}
 	// 3. inject unknown fields
 	if r.intn(2) == 0 {
 		n := 1 + r.intn(2)
